@@ -174,12 +174,22 @@ func (d *demux) run() {
 				if !c.Want(f) {
 					continue
 				}
-				select {
-				case c.resp <- f:
-					if !c.once {
-						continue
+				keep := false
+				for delivered := false; !delivered; {
+					select {
+					case c.resp <- f:
+						delivered, keep = true, !c.once
+					case <-c.done:
+						delivered = true
+					case r := <-d.requests:
+						// The client we are delivering to may itself be registering a new request (the port's
+						// inbound handler chains a demux for every connect it receives): accept it instead of
+						// waiting for each other forever.
+						clients = append(clients, r)
 					}
-				case <-c.done:
+				}
+				if keep {
+					continue
 				}
 				close(c.resp)
 				clients = append(clients[:i], clients[i+1:]...)
